@@ -127,7 +127,8 @@ def _rm(name, tk, rk, tt, nb, tgt, **kw):
 PROPS['C16'] = Prop(
     quick=[_rm('counter_cl', 0, 0, 4, 1, 'CallbackList'), _rm('counter_disp', 1, 0, 4, 1, 'EventDispatcher'), _rm('counter_queue', 2, 0, 4, 1, 'EventQueue'),
            _rm('cond_args_cl', 0, 1, 4, 1, 'CallbackList'), _rm('cond_noargs_disp', 1, 2, 4, 1, 'EventDispatcher'), _rm('cond_args_queue', 2, 1, 3, 1, 'EventQueue'),
-           _rm('counter_hdisp', 3, 0, 3, 1, 'HeterEventDispatcher')],
+           _rm('counter_hdisp', 3, 0, 3, 1, 'HeterEventDispatcher'),
+           BmcRun('counter_wrapper_cbmc', 'counter_kernel.cpp', 'counter_laws.c', unwind=7, bounds='E-bmc cross-check: the real CounterRemover wrapper operator() with a stub dispatcher, translated IR->C and decided by CBMC for EVERY 32-bit trigger count and 0..5 triggers; every nsw operation asserted (signed overflow); unwind 7 with unwinding assertions')],
     thorough=[_rm('counter_cl_t', 0, 0, 5, 2, 'CallbackList', budget_s=1700), _rm('counter_disp_t', 1, 0, 5, 2, 'EventDispatcher', budget_s=1700), _rm('counter_queue_t', 2, 0, 5, 2, 'EventQueue', budget_s=1700),
               _rm('cond_args_cl_t', 0, 1, 5, 2, 'CallbackList', budget_s=1700), _rm('cond_noargs_cl_t', 0, 2, 5, 2, 'CallbackList', budget_s=1700),
               _rm('cond_noargs_disp_t', 1, 2, 5, 2, 'EventDispatcher', budget_s=1700), _rm('cond_args_queue_t', 2, 1, 5, 2, 'EventQueue', budget_s=1700),
@@ -345,4 +346,4 @@ PROPS['C20'] = Prop(
 PROPS['C20'].note = 'The compiler dimension (g++ vs clang++, unspecified evaluation order) is covered by witness replay on native g++/clang++ builds, not by a solver verdict.'
 
 HOOK_COMMITS = []
-EBMC_PROPS = ['C18']
+EBMC_PROPS = ['C16', 'C18']
